@@ -116,14 +116,21 @@ def dict_sites(j, path=()):
     return out
 
 
-DEEP_LEVELS = [120, 300, 480, 650, 800]
+DEEP_LEVELS = [120, 300, 480, 650, 800, 975, 1100, 1400]
+# variant number -> index into DEEP_LEVELS: the first len(DEEP_LEVELS) entries are the identity (the simplifier relies on it), the
+# rest give extra weight to the band at and beyond the interpreter's recursion limit, where every walk with one frame per level fails
+DEEP_PICK = [0, 1, 2, 3, 4, 5, 6, 7, 5, 6, 7, 7]
+
+
+def deep_index(var_n):
+    return DEEP_PICK[var_n % len(DEEP_PICK)]
 
 
 def deep_value(var_n, site_n):
     """A JSON value nested DEEP_LEVELS[..] levels deep (objects, arrays or alternating), built without recursion.
     All of these depths are decodable by json.loads in this interpreter, so they are inside the property's
     'any JSON-decodable input'."""
-    levels = DEEP_LEVELS[var_n % len(DEEP_LEVELS)]
+    levels = DEEP_LEVELS[deep_index(var_n)]
     shape = site_n % 3
     v = [1, 'leaf', None, {}][site_n // 3 % 4]
     for n in range(levels):
@@ -220,8 +227,20 @@ def base_object(op):
         d = {'type': op['name'], 'spec_version': '2.1', 'id': C.mkid(op['name'], n)}
         if op.get('gm'):
             del d['id']          # let the library derive the deterministic id
-        d.update(C._copy(minimal))
-        d.update(C._copy(rich))
+        unreg = {'extension-definition--' + C.mkuuid(6, 'c17sco'): {'extension_type': 'property-extension', 'rank': 6, 'tags': ['a']}}
+        if n % 5 == 3:
+            # a thin object: the required properties only, next to an extension the library has no class for
+            d.update(C._copy(minimal))
+            d['extensions'] = dict(C._copy(rich).get('extensions', {}) if n % 2 else {}, **unreg)
+        elif n % 5 == 4:
+            # described by its extensions alone (legal for a process; other types refuse it for want of a required property)
+            ext = C._copy(rich).get('extensions', {}) if n % 3 else {}
+            if n % 2 or not ext:
+                ext.update(unreg)
+            d['extensions'] = ext
+        else:
+            d.update(C._copy(minimal))
+            d.update(C._copy(rich))
         return d
     if src == 'marking':
         if n % 2:
@@ -280,13 +299,13 @@ class C17(Profile):
               'deep_nesting_injected', 'type_registered_after_first_parse', 'failing_type_registration', 'member_order_varied', 'bundle_given_to_filesystem_sink', 'observable_2.0_with_reference_scope']
     rule = ('plans: 30-80 calls; each takes a valid object (every SDO/SRO type of both versions, 2.1 SCOs, SCOs with nested extensions, 2.0 '
             'observed-data with members, marking definitions, language-content), applies 1-3 wrong-kind replacements at plan-chosen sites of any '
-            'depth (incl. values nested 120-800 levels), and delivers it through one of 16 entry points (parse of dict/text/stream, constructor, new_version, Bundle, '
+            'depth (incl. values nested 120-1400 levels, i.e. up to what json.loads decodes in this interpreter), and delivers it through one of 16 entry points (parse of dict/text/stream, constructor, new_version, Bundle, '
             'memory/filesystem add, stored-file corruption read back through FileSystemSource, saved-bundle corruption loaded back, '
             'parse_observable, marking functions, Environment.add). non-trivial = >=1 corrupted call judged AND >=1 store/registry atomicity '
             'comparison after a failing call; distinct = distinct plan digests')
     state_measure = 'distinct (entry point, object type, corrupted property, wrong kind, outcome class) tuples'
     assumptions = ['scope is corruption-as-fault and failure atomicity, not "all JSON values"; whether a *returned* object is fully validated is C02\'s question and is not asserted',
-                   'injected nesting goes up to 800 levels; the band within ~40 levels of the interpreter recursion limit (about 965-1000 here) is not probed (DESIGN 8)',
+                   'injected nesting goes up to 1400 levels (json.loads of this interpreter gives up between 1400 and 1500); deeper text is not JSON-decodable here and so outside the property',
                    "DataSourceError from the filesystem sink for an already stored (id, modified) is the documented refusal to overwrite, not an escape"]
     components = dict(COMPONENTS_COMMON,
                       real=COMPONENTS_COMMON['real'] + ['stix2.parsing', 'stix2.base', 'stix2.properties', 'stix2.versioning', 'stix2.datastore.memory',
@@ -298,7 +317,7 @@ class C17(Profile):
         ops = []
         kinds = sorted(JUNK) + ['inject', 'inject', 'remove']
         if rng.random() < 0.5:
-            kinds = kinds + ['deep']       # deep nesting: in half of the runs, about one pick in twelve
+            kinds = kinds + ['deep', 'deep']       # deep nesting: in half of the runs, about one pick in seven
         entries = U.swarm_weights(rng, ENTRIES, keep=0.75, must=('parse_dict',))
         for n in range(rng.randrange(30, 81)):
             src = U.weighted(rng, [('sdo', 6), ('nested', 3), ('sco', 2), ('marking', 1.5)])
@@ -325,9 +344,9 @@ class C17(Profile):
         if op.get('gm'):
             out.append(dict(op, gm=False))
         for i, pk in enumerate(op.get('picks', [])):
-            if pk[1] == 'deep' and pk[2] % len(DEEP_LEVELS) > 0:
+            if pk[1] == 'deep' and deep_index(pk[2]) > 0:
                 # the same site, one step less deep
-                out.append(dict(op, picks=op['picks'][:i] + [[pk[0], 'deep', pk[2] % len(DEEP_LEVELS) - 1]] + op['picks'][i + 1:]))
+                out.append(dict(op, picks=op['picks'][:i] + [[pk[0], 'deep', deep_index(pk[2]) - 1]] + op['picks'][i + 1:]))
         return out
 
     # ------------------------------------------------------------------ execution
